@@ -98,6 +98,9 @@ func genReuseCase(t *rapid.T, prop string) *Case {
 			op.Slot = rapid.IntRange(0, 1).Draw(t, "slot")
 			// a new enumeration is restricted to a key range [term a, term b) of the
 			// field's terms in two cases out of three (Term/Doc select a and b)
+			// sticky: half of the enumeration steps go to the dictionary of the previous
+			// enumeration step (so that two enumerations of ONE Dictionary interleave)
+			op.Same = rapid.IntRange(0, 1).Draw(t, "same-dict") == 0
 			if rapid.IntRange(0, 2).Draw(t, "ranged") != 0 {
 				op.Term = 1 + rapid.IntRange(0, 12).Draw(t, "range-a")
 				op.Doc = rapid.IntRange(0, 12).Draw(t, "range-len")
@@ -169,7 +172,14 @@ func runReuseCase(c *Case, env *Env) *Result {
 		absent           bool
 	}
 	var hist []lookup
+	lastEnumSeg, lastEnumField := -1, 0
 	for oi, op := range c.Reuse.Ops {
+		if op.Kind == 1 {
+			if op.Same && lastEnumSeg >= 0 {
+				op.Seg, op.Field = lastEnumSeg, lastEnumField
+			}
+			lastEnumSeg, lastEnumField = op.Seg, op.Field
+		}
 		if op.Kind == 0 {
 			if op.Same && len(hist) >= 1 {
 				l := hist[len(hist)-1]
